@@ -60,7 +60,7 @@ pub fn run(rep: &Report) -> i32 {
             tuples.push((0..8).map(|i| pool[(o * 3 + i * 2) % pool.len()].clone()).collect());
         }
     }
-    rep.set("bounds", json!({"type_tuples": tuples.len(), "witnesses_per_program": if quick {"0..3"} else {"0..4 (all 6^n maps), 8 (3 options per name)"}, "options_per_name": SUPPLIES.iter().map(|s| format!("{s:?}")).collect::<Vec<_>>(), "literal_choices": ["non-zero", "zero"], "extra_names": "0..2"}));
+    rep.set("bounds", json!({"type_tuples": tuples.len(), "witnesses_per_program": if quick {"0..3"} else {"0..4 (all 6^n maps), 8 (3 options per name)"}, "options_per_name": SUPPLIES.iter().map(|s| format!("{s:?}")).collect::<Vec<_>>(), "literal_choices": ["non-zero", "zero"], "extra_names": "0..2", "name_schemes": ["N0, N1, ...", "B, AB, A, PREIMAGE, PK, SIG, Z9, A_LONG_WITNESS_NAME"]}));
     par_for(&tuples, rep, 1, |i, tys| {
         drive::DUMMY.with(|env| check_tuple(rep, tys, i, env));
     });
@@ -71,7 +71,24 @@ pub fn run(rep: &Report) -> i32 {
     )
 }
 
+/// Witness names: scheme 0 = N0, N1, ... (equal lengths); scheme 1 = names of different lengths whose byte order and
+/// length-first order disagree.
+fn wname(scheme: usize, i: usize) -> String {
+    const MIXED: [&str; 8] = ["B", "AB", "A", "PREIMAGE", "PK", "SIG", "Z9", "A_LONG_WITNESS_NAME"];
+    if scheme == 0 {
+        format!("N{i}")
+    } else {
+        MIXED[i % MIXED.len()].to_string()
+    }
+}
+
 fn check_tuple(rep: &Report, tys: &[Ty], idx: usize, env: &drive::Env) {
+    for scheme in 0..(if tys.len() >= 2 { 2 } else { 1 }) {
+        check_tuple_named(rep, tys, idx, env, scheme);
+    }
+}
+
+fn check_tuple_named(rep: &Report, tys: &[Ty], idx: usize, env: &drive::Env, scheme: usize) {
     let n = tys.len();
     // literal choices: 2^n (non-zero value or zero)
     let lit_sizes = vec![2usize; n];
@@ -80,7 +97,7 @@ fn check_tuple(rep: &Report, tys: &[Ty], idx: usize, env: &drive::Env) {
         let mut h = gen::Helpers::default();
         let mut stmts = vec![];
         for (i, t) in tys.iter().enumerate() {
-            stmts.push(Stmt::Expr(assert_(h.eq_call(t, Expr::Witness(format!("N{i}")), val_expr(&lits[i], t)))));
+            stmts.push(Stmt::Expr(assert_(h.eq_call(t, Expr::Witness(wname(scheme, i)), val_expr(&lits[i], t)))));
         }
         let mut items: Vec<Item> = h.fns.into_iter().map(Item::Fn).collect();
         items.push(Item::Fn(FnDef { name: "main".into(), params: vec![], ret: None, body: (stmts, None) }));
@@ -105,13 +122,13 @@ fn check_tuple(rep: &Report, tys: &[Ty], idx: usize, env: &drive::Env) {
                 for i in 0..n {
                     let t = &tys[i];
                     match opts[ix[i]] {
-                        Supply::Exact => map.push((format!("N{i}"), lits[i].clone(), t.clone())),
+                        Supply::Exact => map.push((wname(scheme, i), lits[i].clone(), t.clone())),
                         Supply::Wrong => match other_vals(t, &lits[i], 1).pop() {
                             Some(o) => {
-                                map.push((format!("N{i}"), o, t.clone()));
+                                map.push((wname(scheme, i), o, t.clone()));
                                 expect_success = false;
                             }
-                            None => map.push((format!("N{i}"), lits[i].clone(), t.clone())),
+                            None => map.push((wname(scheme, i), lits[i].clone(), t.clone())),
                         },
                         Supply::Absent => {
                             if lits[i] != zero_val(t) {
@@ -121,20 +138,20 @@ fn check_tuple(rep: &Report, tys: &[Ty], idx: usize, env: &drive::Env) {
                         Supply::SameLayoutOtherType => match same_layout_partner(t) {
                             Some(o) => {
                                 let v = cast_val(&lits[i], t, &o).expect("same layout");
-                                map.push((format!("N{i}"), v, o));
+                                map.push((wname(scheme, i), v, o));
                                 expect_err = true;
                                 nontrivial = true;
                             }
-                            None => map.push((format!("N{i}"), lits[i].clone(), t.clone())),
+                            None => map.push((wname(scheme, i), lits[i].clone(), t.clone())),
                         },
                         Supply::OtherLayout => {
                             let o = if same_layout(t, &Ty::U(64)) { Ty::U(128) } else { Ty::U(64) };
-                            map.push((format!("N{i}"), zero_val(&o), o));
+                            map.push((wname(scheme, i), zero_val(&o), o));
                             expect_err = true;
                         }
                         Supply::ValueOfNext => {
                             let j = (i + 1) % n;
-                            map.push((format!("N{i}"), lits[j].clone(), tys[j].clone()));
+                            map.push((wname(scheme, i), lits[j].clone(), tys[j].clone()));
                             if tys[j] != *t {
                                 expect_err = true;
                                 if same_layout(&tys[j], t) {
